@@ -263,6 +263,13 @@ func runNormalised(pr *rules.Property, repo string, cfg core.Config, p *core.Pro
 	if lerr != nil {
 		return nil
 	}
+	// every program loaded on the way is dropped from the analysis caches when this attempt is over
+	loaded := []*core.Program{base}
+	defer func() {
+		for _, lp := range loaded {
+			rules.Forget(lp)
+		}
+	}()
 	p = base
 	cur := p
 	merged := map[string][]byte{}
@@ -283,6 +290,7 @@ func runNormalised(pr *rules.Property, repo string, cfg core.Config, p *core.Pro
 			}
 			return nil // the normal form does not type-check: discard it
 		}
+		loaded = append(loaded, next)
 		if len(next.Files) != len(base.Files) {
 			if os.Getenv("SPG_DEBUG") != "" {
 				fmt.Fprintf(os.Stderr, "normal form builds %d files, the tree %d: discarded\n", len(next.Files), len(base.Files))
@@ -332,6 +340,7 @@ func runNormalised(pr *rules.Property, repo string, cfg core.Config, p *core.Pro
 			}
 			return rp
 		}
+		loaded = append(loaded, next)
 		cur2, dup = next, true
 	}
 	if dup {
